@@ -306,8 +306,6 @@ def run(ctx):
     maxlen = 5 if q else 7
     ctx.units("type-sequences-exhaustive", unit_seq, [{"maxlen": maxlen, "shard": i, "nshards": ns} for i in range(ns)], procs=ns)
     ctx.units("type-sequences-long", unit_long_seq, [{"lengths": list(range(8, 21)) + [31, 32, 33] + ([] if q else list(range(21, 31)) + [64, 65, 257]), "shard": i, "nshards": ns} for i in range(ns)], procs=ns)
-    from . import c07
-    ctx.units("shared-compiler-threads", c07.unit_shared, [{"reps": 10 if q else 100}])
     ctx.units("cross-dialect-shared-keywords", unit_cross, [{"shard": i, "nshards": ns} for i in range(ns)], procs=ns)
     ctx.units("dialects-through-parser", unit_dialects, [{"shard": i, "nshards": ns, "variants": [0, 1] if q else [0, 1, 2, 3, 4, 5]} for i in range(ns)], procs=ns)
     ctx.units("interpreter-modes", unit_modes, [{}])
